@@ -137,6 +137,18 @@ def Parser.stringify (p : Parser) (separator : Text := [' ']) (includeLeadingWhi
     (if includeComment then separator ++ p.comment.getD [] else []) ++
     (if includeEol then p.eol else [])
 
+/-- `ExcludeRegionPlugin._splitGcodeScript(gcodeString)`: the configured enter/exit scripts are
+split into lines, normalised (no indentation, line number, checksum, comment or line ending), and
+empty lines are dropped -/
+def splitGcodeScript (t : Option Text) : Except PyErr (Option (List Text)) :=
+  match t with
+  | none => .ok none
+  | some s => do
+    let (lines, _) ← ({} : Parser).parseLines (some s)
+    .ok (some ((lines.map (fun g => g.stringify (includeLeadingWhitespace := false)
+        (includeLineNumber := false) (includeComment := false) (includeEol := false))).filter
+          (fun l => !l.isEmpty)))
+
 /-- `commandString` (the cache is not modelled: it is reset by every setter) -/
 def Parser.commandString (p : Parser) : Text :=
   p.stringify (includeChecksum := some false) (includeComment := false) (includeEol := false)
